@@ -282,12 +282,12 @@ func genFact(g *gen.Gen) map[string]interface{} {
 
 func genHistory(g *gen.Gen, n int) []Req {
 	locs := []string{"plain", "loc two&three"}
-	ids := []string{"i1", "id two", "i/3"}
+	ids := []string{"i1", "id two", "i/3", `q"uote`, `back\slash`}
 	var h []Req
 	lastFact := map[string]interface{}{"a": "x"}
 	for i := 0; i < n; i++ {
 		loc := locs[g.Intn(2)]
-		id := ids[g.Intn(3)]
+		id := ids[g.Intn(len(ids))]
 		p := map[string]interface{}{"location": loc}
 		r := Req{Params: p}
 		switch g.Intn(17) {
@@ -319,6 +319,17 @@ func genHistory(g *gen.Gen, n int) []Req {
 			r.URI = "/loc/rules/add"
 			p["rule"] = map[string]interface{}{"when": map[string]interface{}{"pattern": map[string]interface{}{"e": val(g)}}, "action": map[string]interface{}{"code": "'did ' + location"}}
 			p["id"] = "r" + id
+			switch g.Intn(6) {
+			case 0:
+				// a rule whose condition fails: events that reach it are failing operations
+				p["rule"].(map[string]interface{})["condition"] = map[string]interface{}{"code": "throw 'bad condition'"}
+			case 1:
+				// serial actions, the first one fails
+				rm := p["rule"].(map[string]interface{})
+				delete(rm, "action")
+				rm["actions"] = []interface{}{map[string]interface{}{"code": "throw 'bad action'"}, map[string]interface{}{"code": "'second'"}}
+				rm["policies"] = map[string]interface{}{"serialActions": true}
+			}
 		case 8:
 			r.URI = "/loc/rules/list"
 		case 9:
